@@ -25,6 +25,7 @@ theorem recvViaReceiver_no_panic (c : Cfg) (fuel : Nat) : ∀ s, (recvViaReceive
     · split <;> simp [regressPanics]
     · exact ih _
     · simp
+    · simp
 
 theorem receiveSession_no_panic (c : Cfg) (s : St) : (receiveSession c s).1 ≠ .panic := by
   unfold receiveSession
@@ -122,6 +123,7 @@ theorem latest_nonses (e : Ev) (t : List Ev) (he : ∀ x, e ≠ .recv (.ses x)) 
   cases e with
   | recv r => cases r with
     | ses x => exact absurd rfl (he x)
+    | sesGone x => rfl
     | other => rfl
     | fail b => rfl
   | _ => rfl
@@ -139,6 +141,7 @@ theorem nextItem_cases (c : Cfg) (s : St) :
   | cons x r =>
     cases x with
     | ses y => exact Or.inr ⟨_, rfl, rfl⟩
+    | sesGone y => exact Or.inr ⟨.ses y, rfl, rfl⟩
     | other => exact Or.inr ⟨_, rfl, rfl⟩
     | fail b => cases b with
       | true => exact Or.inr ⟨_, rfl, by simp [markEof_trace]⟩
@@ -170,6 +173,7 @@ theorem recvViaReceiver_post (c : Cfg) (fuel : Nat) : ∀ s, cliRev s.trace = tr
           · refine ⟨hq, fun y hy => ?_⟩
             cases hy; rw [ht]; rfl
       | other => exact ih _ hq
+      | sesGone y => exact ⟨hq, fun x hx => by cases hx⟩
       | fail b => exact ⟨hq, fun x hx => by cases hx⟩
 
 theorem receiveSession_post (c : Cfg) (s : St) (h : cliRev s.trace = true) :
@@ -186,6 +190,7 @@ theorem receiveSession_post (c : Cfg) (s : St) (h : cliRev s.trace = true) :
     have hq : cliRev (nextItem c s).2.trace = true := by rw [ht, cliRev_nonemit _ _ (by intros; simp)]; exact h
     cases r with
     | ses x => exact ⟨hq, fun y hy => by cases hy; rw [ht]; rfl⟩
+    | sesGone y => exact ⟨hq, fun x hx => by cases hx⟩
     | other => exact ⟨hq, fun x hx => by cases hx⟩
     | fail b => exact ⟨hq, fun x hx => by cases hx⟩
 
